@@ -88,7 +88,15 @@ def gen_block(rng, names):
 	return b'\r\n'.join(lines)
 
 
+# a valid name, then names that are invalid (8-bit) but equal to it under caseless matching or compatibility folding
+LOOKALIKES = [(b'Strasse-X', [b'Stra\xdfe-X', 'Stra\u00dfe-X'.encode('utf-8')]), (b'Keep-Alive', ['\u212aeep-Alive'.encode('utf-8'), b'\xe2\x84\xaaeep-alive']),
+	(b'file-name', ['\ufb01le-name'.encode('utf-8')]), (b'Access', [b'Acce\xdf', 'Acce\u017f\u017f'.encode('utf-8')])]
+
+
 def cases(rng, tier):
+	for good, bads in LOOKALIKES:
+		for bad in bads:
+			yield ('seq', (('S', good, b'v'), ('G', good), ('S', bad, b'w'), ('G', good), ('A', bad, b'x'), ('F', bad, b'y'), ('G', good), ('C',)))
 	yield ('seq', (('S', b'content-length', b'1'), ('G', b'CONTENT-LENGTH'), ('H', b'Content-length'), ('D', b'cOnTeNt-LeNgTh'), ('H', b'content-length')))
 	yield ('seq', (('R', b'A: 1\r\nB: 2\r\na: 3\r\nSet-Cookie: x=1\r\nset-cookie: y=2\r\nCookie: p=1\r\ncookie: q=2'), ('C',)))
 	for bad in BADNAMES:
